@@ -141,6 +141,20 @@ def c10_faults(r, seed, tier, model_ok):
             for t, w in ((f"{thrown} (ㄱ ㄱㅇㄱ ㅎㄴ ㅎ) ㅅㄷㅎㄷ", "V 7"), (f"{thrown} ((ㄱㅇㄱ ㅈㄷㅎㄴ) ㅎ) ㅅㄷㅎㄷ", "V 2"), (f"({thrown} ((ㄱㅇㄱ ㄷㅈㅎㄴ) ㅎ) ㅅㄷㅎㄷ) (ㄱ ㄱㅇㄱ ㅎㄴ ㅎ) ㅅㄷㅎㄷ", "V 7"),
                          (f"(ㄱ ㄱㅅㅎㄴ) ({thrown} ㅎ) ㄱㄹㅎㄷ (ㄱㅇㄱ ㄱㅅㅎㄴ ㅎ) ((ㄱ ㄱㅇㄱ ㅎㄴ ㄱㅅㅎㄴ) ㅎ) ㄱㄹㅎㄹ", "V 7")):
                 oc.append(dict(text=t, trace=False)); orc.append((w, f"thrown-with-lazy-{pk}-{fn}"))
+    # the reject handler of ㄱㄹ is for failures of the BOUND ACTION only: when the bound action succeeds the handler is irrelevant, so a continuation
+    # that fails the moment it is applied (a bare built-in, a list / Boolean / dictionary used as continuation, a literal naming no built-in)
+    # must give, WITH a handler, exactly the outcome of the same bind WITHOUT one (same class and code list) - the handler never sees it
+    tw3 = []; tw2 = []
+    for first in ("(ㄱ ㄴ ㄷㅂㅎㄷ ㄱㅅㅎㄴ)", "((ㄹ (ㄱ ㄴ ㄷㅂㅎㄷ) ㄷㅂㅎㄷ) ㄱㅅㅎㄴ)", "(ㄱ ㄱㅅㅎㄴ)", "(ㄷ ㄱㅅㅎㄴ)", "(ㄴ ㄷㅂㅎㄴ ㄱㅅㅎㄴ)", "((ㄱ ㄴ ㅁㄹㅎㄷ) ㄱㅅㅎㄴ)", "(ㄹㅎㄱ)", "((ㄱ ㅁㅈㅎㄴ) ㅈㄹㅎㄴ)"):
+        for cont in ("ㄷㅈ", "ㅈㄹ", "ㄱㅅ", "ㅁㅈ", "ㅈㄷ", "ㄴㄱ", "ㅂ", "ㅁㅁㅁㅁ", "(ㄴ ㄷ ㅁㄹㅎㄷ)", "(ㄴ ㅁㄹㅎㄴ)", "(ㅈㅈㅎㄱ)", "(ㄱㅈㅎㄱ)", "(ㄱ ㄴ ㅅㅈㅎㄷ)", "(ㄱ ㅁㅈㅎㄴ)", "(ㄱ ㄷㅂㅎㄴ)", "(ㄱㅇㄱ ㄷㅈㅎㄴ ㅎ)", "(ㄱㅇㄱ ㄱㅅㅎㄴ ㅎ)", "(ㄱㅇㄱ ㅎ)", "(ㄱ ㄱㅇㄱ ㄴㄴㅎㄷ ㄱㅅㅎㄴ ㅎ)"):
+            for hd in ("(ㄴㄱ ㄱㅅㅎㄴ ㅎ)", "((ㄱㅇㄱ ㅈㄷㅎㄴ ㄱㅅㅎㄴ) ㅎ)", "ㄱㅅ"):
+                tw3.append(dict(text=f"{first} {cont} {hd} ㄱㄹㅎㄹ", trace=False)); tw2.append(dict(text=f"{first} {cont} ㄱㄹㅎㄷ", trace=False))
+    def _cls(o): return decode_v(o.split("\t")[0]).split(" @")[0][:200]
+    t3 = impl_run(tw3); t2 = impl_run(tw2)
+    badt = [dict(program=c3["text"], impl=_cls(o3), model=f"{_cls(o2)} (what the same bind gives without a handler: `{c2['text']}`; the bound action succeeds, so its handler must not run)", which=["bind-handler-scope"])
+            for c3, c2, o3, o2 in zip(tw3, tw2, t3, t2) if _cls(o3) != _cls(o2)]
+    r.slice("bind_handler_scope", len(tw3), len({c["text"] for c in tw3}), [tw3[0]["text"]], dict(collections.Counter(_cls(o).split(" ")[0] for o in t3)),
+            "a bind whose bound action succeeds, with a continuation that fails or not the moment it is applied (bare built-ins, non-function callables, unknown names): with a reject handler = without one", badt[:40])
     oa = impl_run(oc)
     bad = [dict(program=c["text"], impl=decode_v(o.split("\t")[0])[:200], model=f"{w[0]} (the handler gets the {w[1]} failure raised inside the data the try must fully evaluate)", which=["try-delivers"])
            for c, o, w in zip(oc, oa, orc) if decode_v(o.split("\t")[0]) != w[0]]
